@@ -38,6 +38,8 @@ func graveyardWorker(db *DB, ctx context.Context, gcRateLimitInterval time.Durat
 
 		toBeDeleted := map[TableMeta][]index.Key{}
 
+		verifPoint("gc.roundStart", db.handleName)
+
 		// Do a lockless read transaction to find potential dead objects.
 		rtxn := db.ReadTxn()
 		for _, table := range rtxn.root() {
@@ -80,8 +82,11 @@ func graveyardWorker(db *DB, ctx context.Context, gcRateLimitInterval time.Durat
 					stat,
 				)
 			}
+			verifPoint("gc.roundDone", db.handleName)
 			continue
 		}
+
+		verifPoint("gc.afterScan", db.handleName)
 
 		// Dead objects found, do a write transaction against all tables with dead objects in them.
 		tablesToModify := slices.Collect(maps.Keys(toBeDeleted))
@@ -117,6 +122,7 @@ func graveyardWorker(db *DB, ctx context.Context, gcRateLimitInterval time.Durat
 			db.metrics.GraveyardObjectCount(string(name), table.numDeletedObjects())
 			db.metrics.ObjectCount(string(name), table.numObjects())
 		}
+		verifPoint("gc.roundDone", db.handleName)
 	}
 }
 
